@@ -1042,7 +1042,7 @@ def scipy_cases(draw, backends=("numpy", "numba")):
             "dt0": draw(st.one_of(st.none(), log_float(1e-4, 1.0).map(lambda x: x * T)))}
 
 
-def agreement_cases(jit=False):
+def agreement_cases():
     return st.one_of(
         fixed_cases(backends=None, nonlinear=True, nmax=20),
         fixed_cases(backends=None, nmax=20),
@@ -1056,39 +1056,39 @@ FIXED_RULE = ("non-trivial = n >= 2 and (b != 0 or complex a or t_start != 0) an
 
 SUBCHECKS = [
     SubCheck("fixed_step_schemes", strategy=lambda: fixed_cases(cuts="none"), check=check_fixed,
-             mode="nojit", budget={"quick": 1600, "thorough": 24000}, shards={"quick": 2, "thorough": 6},
+             mode="nojit", budget={"quick": 1600, "thorough": 60000}, shards={"quick": 2, "thorough": 8},
              rule=FIXED_RULE),
     SubCheck("stage_times", strategy=lambda: fixed_cases(rate="zero", forcing="only"), check=check_fixed,
-             mode="nojit", budget={"quick": 500, "thorough": 8000}, shards={"quick": 1, "thorough": 2},
+             mode="nojit", budget={"quick": 500, "thorough": 16000}, shards={"quick": 1, "thorough": 2},
              rule="state-free du/dt = b p(t): result = quadrature rule of the scheme; " + FIXED_RULE),
     SubCheck("segments_carry_over", strategy=lambda: fixed_cases(cuts="some"), check=check_fixed,
-             mode="nojit", budget={"quick": 900, "thorough": 14000}, shards={"quick": 2, "thorough": 4},
+             mode="nojit", budget={"quick": 900, "thorough": 30000}, shards={"quick": 2, "thorough": 4},
              rule="tracker interrupts split the run into several stepper calls; " + FIXED_RULE),
     SubCheck("adaptive_end_time_and_error", strategy=adaptive_cases, check=check_adaptive, mode="nojit",
-             budget={"quick": 400, "thorough": 6000}, shards={"quick": 2, "thorough": 4},
+             budget={"quick": 400, "thorough": 12000}, shards={"quick": 2, "thorough": 4},
              rule="non-trivial = >= 2 accepted steps"),
     SubCheck("rkf45_single_step_polynomial", strategy=rkf_cases, check=check_single_step, mode="nojit",
-             budget={"quick": 300, "thorough": 4000}, shards={"quick": 1, "thorough": 2},
+             budget={"quick": 300, "thorough": 8000}, shards={"quick": 1, "thorough": 2},
              rule="non-trivial = sharp tolerance and (b != 0 or complex a or t_start != 0); reject mode: "
                   "the whole-range trial step must be rejected"),
     SubCheck("backend_agreement", strategy=agreement_cases, check=check_agreement, mode="nojit",
-             budget={"quick": 300, "thorough": 5000}, shards={"quick": 1, "thorough": 3},
+             budget={"quick": 300, "thorough": 10000}, shards={"quick": 1, "thorough": 3},
              rule="numpy vs numba (interpreted source of the numba loops); " + FIXED_RULE),
     SubCheck("scipy_solver", strategy=scipy_cases, check=check_scipy, mode="nojit",
-             budget={"quick": 200, "thorough": 3000}, shards={"quick": 1, "thorough": 2},
+             budget={"quick": 200, "thorough": 6000}, shards={"quick": 1, "thorough": 4},
              rule="non-trivial = b != 0 or complex a or t_start != 0"),
     # ---- compiled samples (every case compiles its own stepper: 1-5 s) ---------------
     SubCheck("fixed_step_schemes_jit",
              strategy=lambda: fixed_cases(backends=("numba",), cuts="any", nmax=12), check=check_fixed,
-             mode="jit", budget={"quick": 30, "thorough": 480}, shards={"quick": 3, "thorough": 8},
+             mode="jit", budget={"quick": 30, "thorough": 800}, shards={"quick": 3, "thorough": 8},
              rule=FIXED_RULE),
     SubCheck("adaptive_jit",
              strategy=lambda: st.one_of(adaptive_cases(backends=("numba",), tol_lo=1e-5),
                                         rkf_cases(backends=("numba",))),
              check=lambda case: check_single_step(case) if "mode" in case else check_adaptive(case),
-             mode="jit", budget={"quick": 10, "thorough": 160}, shards={"quick": 1, "thorough": 4},
+             mode="jit", budget={"quick": 10, "thorough": 240}, shards={"quick": 1, "thorough": 4},
              rule="non-trivial = >= 2 accepted steps / single-step rule"),
-    SubCheck("backend_agreement_jit", strategy=lambda: agreement_cases(jit=True), check=check_agreement,
-             mode="jit", budget={"quick": 12, "thorough": 160}, shards={"quick": 2, "thorough": 4},
+    SubCheck("backend_agreement_jit", strategy=lambda: agreement_cases(), check=check_agreement,
+             mode="jit", budget={"quick": 12, "thorough": 240}, shards={"quick": 2, "thorough": 4},
              rule="numpy vs compiled numba; " + FIXED_RULE),
 ]
